@@ -574,7 +574,7 @@ Qed.
 
 (* the same dialect read sequentially (what pickletools does with FRAME) *)
 Definition unframed (d : dialect) : dialect :=
-  mkDialect false (dl_ne d) (dl_int d) (dl_long d) (dl_idx d) (dl_float d) (dl_name d) (dl_pid d)
+  mkDialect false (dl_ne d) (dl_int d) (dl_long d) (dl_idx d) (dl_float d) (dl_name d) (dl_iname d) (dl_pid d)
             (dl_utext d) (dl_string d) (dl_binstr d).
 
 Lemma decode_op_lin : forall d, dl_framed d = true -> lin_ok (decode_op d) (decode_op (unframed d)).
@@ -808,6 +808,19 @@ Proof.
   destruct (c <? 2048); [|destruct (c <? 65536)]; cbn [In] in H; right;
     repeat (destruct H as [<-|H]; [lia|]); destruct H.
 Qed.
+Lemma utf8_enc_ascii : forall s, all_ascii s = true -> utf8_enc s = s.
+Proof.
+  induction s as [|c s IH]; intro Ha; [reflexivity|].
+  cbn [all_ascii forallb] in Ha. apply andb_true_iff in Ha. destruct Ha as [Hc Hs].
+  unfold utf8_enc. cbn [flat_map]. unfold utf8_enc_cp at 1. rewrite Hc. cbn [app].
+  f_equal. apply IH. exact Hs.
+Qed.
+
+(* what the C unpickler makes of the two lines of INST: the bytes themselves when all are below 128, otherwise
+   no opcode (UnicodeDecodeError before any lookup) - while GLOBAL reads them as UTF-8 *)
+Lemma c_iname_ascii : forall l s, c_iname l = Some s -> s = l /\ all_ascii l = true.
+Proof. intros l s H. unfold c_iname in H. destruct (all_ascii l); inversion H; auto. Qed.
+
 Lemma utf8_enc_no_nl : forall s, no_nl s = true -> no_nl (utf8_enc s) = true.
 Proof.
   unfold no_nl. intros s H. apply forallb_forall. intros b Hb. unfold utf8_enc in Hb.
@@ -1015,7 +1028,7 @@ Qed.
 
 (* the C dialect with FRAME buffering switched on (the C unpickler) or off (a sequential reader) *)
 Definition cdl (fr : bool) (t : textw) : dialect :=
-  mkDialect fr true (c_int t) (c_long t) (c_idx t) (tx_float t) c_name c_pid rue_dec (c_string t) c_binstr.
+  mkDialect fr true (c_int t) (c_long t) (c_idx t) (tx_float t) c_name c_iname c_pid rue_dec (c_string t) c_binstr.
 Lemma cdl_true : forall t, cdl true t = c_dialect t.
 Proof. reflexivity. Qed.
 Lemma cdl_false : forall t, cdl false t = unframed (c_dialect t).
@@ -1098,11 +1111,13 @@ Proof.
     repeat match goal with Hx : (_ && _)%bool = true |- _ => apply andb_true_iff in Hx; destruct Hx end.
     rewrite read_arg_line2 by (first [exact H | apply utf8_enc_no_nl; assumption | intros _; split; apply utf8_enc_nonempty; assumption]).
     cbn [build_op cdl dl_name]. unfold c_name. rewrite !utf8_dec_enc by (first [assumption | right; assumption]). reflexivity.
-  - (* INST *) start H. apply andb_true_iff in Hok. destruct Hok as [Hm Hn].
+  - (* INST: both lines ASCII, so their UTF-8 form is the text itself *)
+    start H. apply andb_true_iff in Hok. destruct Hok as [Hm Hn].
+    apply andb_true_iff in Hm. destruct Hm as [Hm Hma]. apply andb_true_iff in Hn. destruct Hn as [Hn Hna].
     unfold name_ok in Hm, Hn.
     repeat match goal with Hx : (_ && _)%bool = true |- _ => apply andb_true_iff in Hx; destruct Hx end.
     rewrite read_arg_line2 by (first [exact H | apply utf8_enc_no_nl; assumption | intros _; split; apply utf8_enc_nonempty; assumption]).
-    cbn [build_op cdl dl_name]. unfold c_name. rewrite !utf8_dec_enc by (first [assumption | right; assumption]). reflexivity.
+    cbn [build_op cdl dl_iname]. unfold c_iname. rewrite !utf8_enc_ascii by assumption. rewrite Hma, Hna. reflexivity.
   - (* PERSID *) start H. apply andb_true_iff in Hok. destruct Hok as [Ha Hn].
     rewrite read_arg_line by (first [exact H | exact Hn | discriminate]).
     cbn [build_op cdl dl_pid]. unfold c_pid. rewrite Ha. reflexivity.
@@ -1512,3 +1527,37 @@ Example frame_straddle_differs :
   bdecode (c_dialect no_text) bs2 = ([FRAME 3; INT 3; STOP], DStop, true) /\
   bdecode (unframed (c_dialect no_text)) bs2 = ([FRAME 3; INT 123; STOP], DStop, false).
 Proof. vm_compute. repeat split; reflexivity. Qed.
+
+(** * INST reads its two lines as ASCII (load_inst: PyUnicode_DecodeASCII), GLOBAL as UTF-8 *)
+
+(* under the C dialect an INST opcode is decoded only from two pure-ASCII lines, and then to exactly those bytes *)
+Theorem inst_decoded_only_ascii : forall fr t l1 l2 o,
+  build_op (cdl fr t) 105 (RLine2 l1 l2) = Some o ->
+  o = INST l1 l2 /\ all_ascii l1 = true /\ all_ascii l2 = true.
+Proof.
+  intros fr t l1 l2 o H. cbn [build_op cdl dl_iname] in H.
+  destruct (c_iname l1) as [m|] eqn:E1; [|discriminate].
+  destruct (c_iname l2) as [n|] eqn:E2; [|discriminate].
+  apply c_iname_ascii in E1. apply c_iname_ascii in E2. destruct E1 as [-> A1]. destruct E2 as [-> A2].
+  inversion H; subst. auto.
+Qed.
+(* a byte >= 128 in either line: no opcode, the load ends with a decoding error (UnicodeDecodeError) and
+   find_class is not asked *)
+Theorem inst_nonascii_not_decoded : forall fr t l1 l2,
+  all_ascii l1 && all_ascii l2 = false -> build_op (cdl fr t) 105 (RLine2 l1 l2) = None.
+Proof.
+  intros fr t l1 l2 H. cbn [build_op cdl dl_iname]. unfold c_iname.
+  destruct (all_ascii l1); [|reflexivity]. destruct (all_ascii l2); [discriminate H | reflexivity].
+Qed.
+
+(* b'cbuiltins\ncomplex\n0(i\xe4\xb8\xad\nx\n.' : the allowed GLOBAL is resolved, the INST line is
+   UnicodeDecodeError and no lookup of its module is made; the same two lines under GLOBAL are UTF-8 and the
+   lookup is refused *)
+Example inst_nonascii_is_decode_error :
+  load_content default_world (c_dialect no_text)
+    [99; 98;117;105;108;116;105;110;115; 10; 99;111;109;112;108;101;120; 10; 48; 40; 105; 228;184;173; 10; 120; 10; 46]
+  = (Err (Malformed 3), [EResolve (s2p "builtins") (s2p "complex")]) /\
+  load_content default_world (c_dialect no_text)
+    [99; 98;117;105;108;116;105;110;115; 10; 99;111;109;112;108;101;120; 10; 48; 40; 99; 228;184;173; 10; 120; 10; 46]
+  = (Err (Forbidden [20013] (s2p "x")), [EResolve (s2p "builtins") (s2p "complex")]).
+Proof. vm_compute. split; reflexivity. Qed.
